@@ -83,6 +83,8 @@ pub struct Exec {
     il: Fnv,
     now: u64,
     last_tip: (packed::Byte32, BigUint),
+    /// C20: the tip at the last tip change the dropped-ids oracle has seen
+    view_tip: packed::Byte32,
     snaps: Vec<Arc<Snapshot>>,
     /// what each captured snapshot answered, at capture, to by-hash queries for every scenario block
     snap_answers: Vec<Vec<(String, u64)>>,
@@ -191,6 +193,8 @@ impl Exec {
         }
         let snap = node.shared.snapshot();
         let last_tip = (snap.tip_hash(), bigmath::from_u256(snap.total_difficulty()));
+        let view_tip0 = snap.tip_hash();
+        let _ = ckb_chain::verif::take_dropped_proposals();
         drop(snap);
         let progress = std::fs::OpenOptions::new()
             .create(true)
@@ -219,6 +223,7 @@ impl Exec {
             il: Fnv::new(),
             now,
             last_tip,
+            view_tip: view_tip0,
             snaps: Vec::new(),
             snap_answers: Vec::new(),
             snap_raw: Vec::new(),
@@ -1771,7 +1776,36 @@ impl Exec {
     }
 
     /// cheap monitors after every step
+    /// C20: "the ids reported as dropped are exactly those that left the window": at every tip
+    /// change the chain service tells the pool which ids left the committable set; that report must
+    /// equal (committable set at the old tip) minus (committable set at the new tip), both derived
+    /// from the model's chains.
+    fn check_dropped_proposals(&mut self, why: &str) {
+        for (new_tip, ids) in ckb_chain::verif::take_dropped_proposals() {
+            let old_tip = std::mem::replace(&mut self.view_tip, new_tip.clone());
+            let (Some(a), Some(b)) = (self.w.by_hash.get(&old_tip).cloned(), self.w.by_hash.get(&new_tip).cloned()) else { continue };
+            if !self.w.blocks[a].chain_valid || !self.w.blocks[b].chain_valid {
+                continue;
+            }
+            let (old_set, _) = self.w.proposal_view(&self.w.chain_of(a));
+            let (new_set, _) = self.w.proposal_view(&self.w.chain_of(b));
+            let want: BTreeSet<_> = old_set.difference(&new_set).cloned().collect();
+            let got: BTreeSet<_> = ids.into_iter().collect();
+            if !want.is_empty() {
+                self.res.probes.inc("tip_change_with_dropped_proposal_ids");
+            }
+            if got != want {
+                self.viol(
+                    "C20",
+                    "dropped_ids_mismatch",
+                    format!("{why}: tip #{a} -> #{b}: reported {} ids, left the committable set {}; only-reported {} only-left {}", got.len(), want.len(), got.difference(&want).count(), want.difference(&got).count()),
+                );
+            }
+        }
+    }
+
     fn observe(&mut self, why: &str) {
+        self.check_dropped_proposals(why);
         let snap = self.node.shared.cloned_snapshot();
         let tip = snap.tip_hash();
         let td = bigmath::from_u256(snap.total_difficulty());
